@@ -222,8 +222,8 @@ def rule_l1(F):
                   "agreement with Pool::layout_of and the generated clone/drop/eq bodies cannot be established (e.g. Layout::concat pads the prefix like a finished struct)" % label)
     if n_enum < 5:
         r.missing("5 enum-variant layout walks (found %d)" % n_enum)
-    if n_rec < 5:
-        r.missing("5 record layout walks (found %d)" % n_rec)
+    if n_rec < 3:     # vacuity guard only (helpers may merge record walks; the enum walks are required site by site above)
+        r.missing("3 record layout walks (found %d)" % n_rec)
     # list_get payload offset
     lg = F.body("value::list::ffi::list_get")
     if lg is None:
